@@ -114,7 +114,11 @@ fn check_backend<F: Backend>(
         let len = rng.below(20);
         let cols: Vec<Vec<f32>> = slot.iter().map(|&s| (0..len).map(|j| pts[j % pts.len()][s]).collect()).collect();
         child::note(&format!("C11 {name} float-slice eval | program {:016x}", p.hash()));
-        match guarded(|| float_slice_eval(&f, &cols)) {
+        // the caller's slices end right at a guard page: "no out-of-bounds
+        // access" includes reads past the end of the inputs
+        let gcols_f: Vec<crate::monitor::guard::GuardedSlice<f32>> =
+            cols.iter().map(|c| crate::monitor::guard::GuardedSlice::new(c, crate::monitor::guard::Flush::End)).collect();
+        match guarded(|| float_slice_eval(&f, &gcols_f)) {
             Ok(Ok(out)) => {
                 st.inc("float_slice_evals");
                 if out.len() != roots.len() || out.iter().any(|c| c.len() != len) {
@@ -136,7 +140,9 @@ fn check_backend<F: Backend>(
             })
             .collect();
         child::note(&format!("C11 {name} grad-slice eval | program {:016x}", p.hash()));
-        match guarded(|| grad_slice_eval(&f, &gcols)) {
+        let gcols_g: Vec<crate::monitor::guard::GuardedSlice<Grad>> =
+            gcols.iter().map(|c| crate::monitor::guard::GuardedSlice::new(c, crate::monitor::guard::Flush::End)).collect();
+        match guarded(|| grad_slice_eval(&f, &gcols_g)) {
             Ok(Ok(out)) => {
                 st.inc("grad_slice_evals");
                 if out.len() != roots.len() || out.iter().any(|c| c.len() != len) {
